@@ -50,7 +50,9 @@ func VerifGetUndisclosedAttributes(disclosed []int, n int) []int {
 }
 
 // VerifNonrevBuilder exposes the non-revocation part of a disclosure proof builder.
-func (d *DisclosureProofBuilder) VerifNonrevBuilder() *NonRevocationProofBuilder { return d.nonrevBuilder }
+func (d *DisclosureProofBuilder) VerifNonrevBuilder() *NonRevocationProofBuilder {
+	return d.nonrevBuilder
+}
 
 // VerifState exposes the state of a NonRevocationProofBuilder.
 func (b *NonRevocationProofBuilder) VerifState() (commit *revocation.ProofCommit, commitments []*big.Int, randomizer *big.Int, index uint64) {
